@@ -4,7 +4,8 @@ use super::PropResult;
 use crate::core::*;
 use crate::model::calendar as cal;
 use crate::model::instant::*;
-use astrolabe::{Date, DateTime, DateUtilities};
+use super::diff::*;
+use astrolabe::{DateTime, DateUtilities};
 use serde_json::{json, Value};
 
 /// Model: for (a_day, a_tod) >= (b_day, b_tod) and dom(b) <= 28, the unique n >= 0 with
@@ -27,9 +28,6 @@ fn model_months(a: (i64, i128), b: (i64, i128)) -> i64 {
     panic!("model_months: no n for {:?} {:?}", a, b);
 }
 
-fn date_of(day: i64) -> Date {
-    Date::from_timestamp((day - cal::DAYS_TO_1970) * 86_400)
-}
 
 fn dom(day: i64) -> u32 {
     cal::ymd(day).2
@@ -60,17 +58,22 @@ fn pair_class(a: i64, b: i64) -> &'static str {
 /// All ordered pairs (a, b) of one b against every a in the window, in ascending a — gives value,
 /// antisymmetry and monotonicity verdicts in one pass.
 fn judge_row_dates(rec: &mut Rec, lo: i64, hi: i64, b: i64) {
-    let bd = date_of(b);
+    let Some(bd) = sane_date(b) else {
+        rec.bin(SKIP_START);
+        return;
+    };
     let bdom = dom(b);
     let mut prev: Option<(i64, i32, i32)> = None;
     for a in lo..=hi {
         rec.eval();
         let cls = pair_class(a, b);
         rec.bin(cls);
-        let r = trap(|| {
-            let ad = date_of(a);
-            (ad.months_since(&bd), ad.years_since(&bd), bd.months_since(&ad), bd.years_since(&ad))
-        });
+        let Some(ad) = sane_date(a) else {
+            rec.bin(SKIP_START);
+            prev = None;
+            continue;
+        };
+        let r = trap(|| (ad.months_since(&bd), ad.years_since(&bd), bd.months_since(&ad), bd.years_since(&ad)));
         let wit = |obs: Value| {
             let (x, y) = (cal::ymd(a), cal::ymd(b));
             json!({"a": [x.0, x.1, x.2], "b": [y.0, y.1, y.2], "class": cls, "observed": obs})
@@ -130,11 +133,11 @@ fn judge_dt_pair(rec: &mut Rec, a: (i64, i128), b: (i64, i128), tag: &'static st
     rec.nontrivial(hash_i128s(&[a.0 as i128, a.1, b.0 as i128, b.1]));
     let ia = a.0 as i128 * D + a.1;
     let ib = b.0 as i128 * D + b.1;
-    let r = trap(|| {
-        let x = mk(ia);
-        let y = mk(ib);
-        (x.months_since(&y), x.years_since(&y), y.months_since(&x), y.years_since(&x))
-    });
+    let (Some((x, _)), Some((y, _))) = (sane_value(ia, 0), sane_value(ib, 0)) else {
+        rec.bin(SKIP_START);
+        return;
+    };
+    let r = trap(|| (x.months_since(&y), x.years_since(&y), y.months_since(&x), y.years_since(&x)));
     let wit = |obs: Value| json!({"a": show(ia), "b": show(ib), "class": tag, "observed": obs});
     match r {
         Err(p) => rec.violation(format!("C07|datetimes|months_since/years_since|panic|{},{}", p.class, p.site()), || wit(p.to_json())),
